@@ -4,6 +4,8 @@ import Lemmas.ErrsTrace
 import Lemmas.ErrsWalk
 import Lemmas.ErrsContrast
 import Lemmas.ErrsFrame
+import Lemmas.ErrsHistory
+import Lemmas.ErrsFuel
 /-! # C11 — error aggregation loses nothing and wrapping preserves identity
 
 Property theorems only.  The executable model is `Model/Errs.lean` (a heap of `*errs.Error` nodes; `Errs.append`,
@@ -792,5 +794,228 @@ theorem append_keeps_unwrap (h : Heap) (acc : Val) (args : List Val) (id : Nat) 
   have hn : h[id]? = some h[id] := Array.getElem?_eq_getElem hid
   obtain ⟨m, hm, _, hc, _, _⟩ := (append_only_links h acc args).2 id h[id] hn
   simp only [unwrap, hm, hn, hc]
+
+
+/-! ## No earlier value is modified by a later call; values handed out by `WrappedErrors` are independent
+(`Lemmas/ErrsHistory.lean`; the clause attacked by both regressions of tester round 7)
+
+`Evolves h h'`: `h'` is reached from `h` by ANY sequence of `New`, `NewWithCause`, `&Error{}`, `Wrap`, `WrapTyped`, `Append`,
+element-of-`WrappedErrors()` and `CloneWithPrefixMessage` calls, with any arguments and any aliasing.
+`Sep h id a`: the heap is well formed, `id` is a non-empty error, `a` an error, and their chains end in different cells. -/
+
+/-- **whatever the history, only links are ever written**: after any sequence of calls every cell that existed still
+    exists with the same message, cause, stack and wrapped flag — so `Unwrap`, `errors.Is`/`errors.As`, the recorded stack and
+    the message of every error handed out earlier, to anyone, are what they were (no `WF`, no hypothesis on aliasing; heaps
+    with clones included) -/
+theorem history_only_links (h h' : Heap) (e : Evolves h h') :
+    h.size ≤ h'.size ∧
+    (∀ (i : Nat) (n : ENode), h[i]? = some n → ∃ m, h'[i]? = some m ∧
+      n.msg = m.msg ∧ n.cause = m.cause ∧ n.hasStack = m.hasStack ∧ n.wrapped = m.wrapped) ∧
+    (∀ id, id < h.size → unwrap h' (.ref id) = unwrap h (.ref id)) := by
+  have L := evolves_onlyLinks e
+  refine ⟨L.1, L.2, ?_⟩
+  intro id hid
+  have hn : h[id]? = some h[id] := Array.getElem?_eq_getElem hid
+  obtain ⟨m, hm, _, hc, _, _⟩ := L.2 id h[id] hn
+  simp only [unwrap, hm, hn, hc]
+
+/-- **one `Append` changes the content of nothing but what ends in the accumulator's last cell** — with ANY aliasing among
+    the accumulator and the arguments (`append_args_unchanged` needs `NoAlias`): onto a non-empty `*Error` every error whose
+    chain ends elsewhere keeps `Count`, messages, causes (its `items`); onto anything that is not a `*Error` (nil, typed nil,
+    a foreign error) EVERY existing error does -/
+theorem append_touches_only_accumulator (h : Heap) (args : List Val) (hwf : WF h)
+    (hids : ∀ id', Val.ref id' ∈ args → id' < h.size) (a : Nat) (ha : a < h.size) :
+    (∀ id, id < h.size → isEmpty h id = false → tailOf h (fuelOf h) a ≠ tailOf h (fuelOf h) id →
+      items (append h (.ref id) args).1 a = items h a) ∧
+    (∀ acc, (∀ id, acc ≠ .ref id) → items (append h acc args).1 a = items h a) :=
+  ⟨fun id hid hne hta => append_others_unchanged h id args hwf hid hne hids a ha hta,
+   fun acc hacc => append_fresh_unchanged h acc args hwf hacc hids a ha⟩
+
+/-- …and this is stable: after the call the accumulator is the same pointer, the two errors still end in different cells
+    and the heap is still well formed, so the statement applies to the next call (`Sep` is an invariant of `Append`) -/
+theorem append_keeps_separation (h : Heap) (id a : Nat) (args : List Val) (S : Sep h id a)
+    (hids : ∀ id', Val.ref id' ∈ args → id' < h.size) :
+    (append h (.ref id) args).2.1 = some id ∧ items (append h (.ref id) args).1 a = items h a ∧
+    h.size ≤ (append h (.ref id) args).1.size ∧ Sep (append h (.ref id) args).1 id a :=
+  sep_append_step h id a args S hids
+
+/-- **any chain of `Append`s on an accumulator** leaves every error that ends elsewhere exactly as it was (arguments that
+    existed at the start, any aliasing, any number of calls) -/
+theorem append_chain_others_unchanged (argss : List (List Val)) (h : Heap) (id a : Nat) (S : Sep h id a)
+    (hargs : ∀ args ∈ argss, ∀ id', Val.ref id' ∈ args → id' < h.size) :
+    items (appendSeq h (.ref id) argss).1 a = items h a ∧ (appendSeq h (.ref id) argss).2 = .ref id :=
+  appendSeq_others_unchanged argss h id a S hargs
+
+/-- **a value handed out by `WrappedErrors()` is independent of the chain it came from** (and of every other error): the
+    copy is a fresh cell without a link, so (1) it and every older error `a` end in different cells, both ways round — hence
+    by `append_keeps_separation` / `append_chain_others_unchanged` any later `Append`s ONTO THE COPY leave `a` (the source
+    aggregate included) unchanged, and any later `Append`s onto `a` leave the copy unchanged; (2) spelled out for one call
+    each way -/
+theorem wrapped_elem_independent (h : Heap) (hwf : WF h) (id i : Nat) (n : ENode)
+    (hn : (wrappedErrors h id)[i]? = some n) (a : Nat) (ha : a < h.size)
+    (args : List Val) (hids : ∀ id', Val.ref id' ∈ args → id' < h.size + 1) :
+    elem h (.ref id) i = (h.push n, .ref h.size) ∧ items (h.push n) a = items h a ∧
+    (isEmpty (h.push n) h.size = false →
+      Sep (h.push n) h.size a ∧ items (append (h.push n) (.ref h.size) args).1 a = items h a) ∧
+    (isEmpty h a = false →
+      Sep (h.push n) a h.size ∧ items (append (h.push n) (.ref a) args).1 h.size = items (h.push n) h.size) := by
+  obtain ⟨hel, hnext, _, _, _⟩ := elem_spec h hwf id i n hn
+  obtain ⟨hit, h1, h2⟩ := push_sep h n hwf hnext a ha
+  have hids' : ∀ id', Val.ref id' ∈ args → id' < (h.push n).size := by
+    intro id' hm; have := hids id' hm; simp; omega
+  refine ⟨hel, hit, ?_, ?_⟩
+  · intro he
+    exact ⟨h1 he, ((sep_append_step _ _ _ args (h1 he) hids').2.1).trans hit⟩
+  · intro he
+    exact ⟨h2 he, (sep_append_step _ _ _ args (h2 he) hids').2.1⟩
+
+/-- CONTRAST (tester round 7, `ind7-c11-a`): with a cached `tail` hint that `Append` keeps right but `WrappedErrors`' struct
+    copy carries along BY VALUE, an element used as the accumulator of a later `Append` loses what is appended (`Count` 1)
+    and the aggregate it was copied from grows — the conclusion of `wrapped_elem_independent` fails; with the hint cleared
+    on the copy, and in the model of the real code, the result has both errors and the source is untouched -/
+theorem cached_tail_copied_by_value_breaks_independence :
+    ∃ (s : CHeap) (id i : Nat) (args : List Val), WF s.h ∧
+      count (appendC (elemC true s id i) s.h.size args).h s.h.size = 1 ∧
+      items (appendC (elemC true s id i) s.h.size args).h id ≠ items s.h id ∧
+      count (appendC (elemC false s id i) s.h.size args).h s.h.size = 2 ∧
+      items (appendC (elemC false s id i) s.h.size args).h id = items s.h id ∧
+      count (append (elem s.h (.ref id) i).1 (.ref s.h.size) args).1 s.h.size = 2 ∧
+      items (append (elem s.h (.ref id) i).1 (.ref s.h.size) args).1 id = items s.h id :=
+  ⟨{ h := h0, tl := #[none, some 2, none, none] }, 1, 0, [.plain 0 "p"], wf_of_wfb h0 (by decide),
+    by decide, by decide, by decide, by decide, by decide, by decide⟩
+
+/-! non-vacuity of `Sep` and of the hypotheses of `wrapped_elem_independent`: element 0 of `{a1, a2}` in `h0` -/
+example : (wrappedErrors h0 1)[0]? = some { msg := "a1", hasStack := true } := by decide
+example : isEmpty (h0.push { msg := "a1", hasStack := true }) h0.size = false := by decide
+example : Sep h0 0 1 := ⟨wf_of_wfb h0 (by decide), by decide, by decide, by decide, by decide⟩
+
+/-! ## Observation: `errors.Is` and a nil `*Error` behind a foreign wrapper -/
+
+/-- `nilFree v`: no nil `*errs.Error` is the value itself or sits at the bottom of its foreign wrappers -/
+theorem nilFree_iff (v : Val) : nilFree v = true ↔
+    v ≠ .typedNil ∧ ∀ u m inner, v = .fwrap u m inner → nilFree inner = true := by
+  cases v <;> simp [nilFree]
+
+/-- **OBSERVATION (not a property matter; reproduced on the real code by corpus `errs.walk.ops`, lines `v7`, `v31`)**:
+    the `errors.Is` walk that stands on a nil `*errs.Error` which is not the (comparable) target itself panics —
+    `(*Error).Unwrap` dereferences its nil receiver; in particular `errors.Is(w, t)` for a FOREIGN wrapper `w` whose
+    `Unwrap()` returns a nil `*errs.Error`, for every non-nil target other than `w` itself and other than a nil `*Error` -/
+theorem errors_is_panics_on_nil_error (h : Heap) (cmp : Val → Bool) (t : Val) (fuel u : Nat) (m : String)
+    (ht : t ≠ .nilIface) (htn : t ≠ .typedNil) (htw : t ≠ .fwrap u m .typedNil) :
+    isWalk h cmp t (fuel + 1) .typedNil = .panics ∧
+    errorsIs h cmp (.fwrap u m .typedNil) t = .panics := by
+  have e1 : (Val.typedNil == t) = false := by simp only [beq_eq_false_iff_ne, ne_eq]; exact fun e => htn e.symm
+  have e2 : (Val.fwrap u m .typedNil == t) = false := by
+    simp only [beq_eq_false_iff_ne, ne_eq]; exact fun e => htw e.symm
+  have e3 : (t == Val.nilIface) = false := by simpa using ht
+  have w1 : ∀ f, isWalk h cmp t (f + 1) .typedNil = .panics := by
+    intro f; simp [isWalk, e1]
+  refine ⟨w1 fuel, ?_⟩
+  obtain ⟨k, hk⟩ : ∃ k, walkFuel h (.fwrap u m .typedNil) = k + 2 :=
+    ⟨walkFuel h (.fwrap u m .typedNil) - 2, by have := walkFuel_ge h (.fwrap u m .typedNil); omega⟩
+  simp only [errorsIs, e3, Bool.or_false, hk]
+  have e0 : (Val.fwrap u m .typedNil == Val.nilIface) = false := by simp
+  simp only [e0, Bool.false_eq_true, if_false]
+  simp only [isWalk, e0, e2, Bool.and_false, Bool.false_eq_true, if_false]
+  exact w1 k
+
+/-- …and ONLY then: when neither the value nor any cause in the heap hides a nil `*errs.Error` (`NewWithCause` drops a
+    typed-nil cause itself, so this is about foreign wrappers only), `errors.Is` never panics, whatever the fuel -/
+theorem errors_is_panics_only_on_nil_error (h : Heap) (cmp : Val → Bool) (t : Val)
+    (hh : ∀ (i : Nat) (n : ENode), h[i]? = some n → nilFree n.cause = true) :
+    ∀ (fuel : Nat) (v : Val), nilFree v = true → isWalk h cmp t fuel v ≠ .panics :=
+  isWalk_no_panic h cmp t hh
+
+
+/-! ## The fuel of the model's `errors.Is` walk is always enough (`Lemmas/ErrsFuel.lean`)
+
+`top v` — one more than the cell the value `v` mentions at the bottom of its foreign wrappers (0: none); `top v ≤ h.size`
+says `v` mentions existing errors only, which is true of every value a program can hold.  `DeepCauseWF h` — every `*Error`
+mentioned anywhere inside the cause of a cell, also below foreign wrappers, is an OLDER cell. -/
+
+/-- every heap built by the API from values that exist when they are used (`BuiltD`: `New`, `NewWithCause`, `&Error{}`, `Wrap`,
+    `WrapTyped`, `Append`, elements of `WrappedErrors()`, `CloneWithPrefixMessage`) has the deep cause invariant (and hence
+    `CauseWF`, the invariant of the rendering theorems) -/
+theorem builtD_deepCauseWF (h : Heap) (b : BuiltD h) : DeepCauseWF h ∧ CauseWF h :=
+  ⟨builtD_deep b, deep_causeWF (builtD_deep b)⟩
+
+/-- **`walkFuel` never cuts the walk**: in such a heap, from a value that mentions existing errors only, any larger amount
+    of fuel gives the same outcome — `errorsIs`, which the driver runs against `errors.Is`, IS the unbounded walk -/
+theorem is_walk_fuel_enough (h : Heap) (cmp : Val → Bool) (t : Val) (hd : DeepCauseWF h) (v : Val) (hv : top v ≤ h.size)
+    (fuel : Nat) (hf : walkFuel h v ≤ fuel) : isWalk h cmp t fuel v = isWalk h cmp t (walkFuel h v) v :=
+  walkFuel_enough h cmp t hd v hv fuel hf
+
+/-- **`errors.Is` through `Wrap`, without any fuel in the statement**: for a non-nil error `v` that contains no `*Error`,
+    `errors.Is(Wrap(v), t)` answers exactly what `errors.Is(v, t)` answers, for every non-nil target other than the new
+    wrapper itself (found, not found, or the nil-receiver panic alike) -/
+theorem wrap_is_transparent (h : Heap) (cmp : Val → Bool) (v t : Val) (hd : DeepCauseWF h) (hv : top v ≤ h.size)
+    (hn : isNil v = false) (ha : asError v = false) (ht0 : t ≠ .nilIface) (ht : t ≠ .ref h.size) :
+    errorsIs (wrap h v).1 cmp (wrap h v).2 t = errorsIs (wrap h v).1 cmp v t := by
+  have hw : wrap h v = (h.push (wrapperNode v), .ref h.size) := by simp [wrap, hn, ha]
+  rw [hw]
+  have hd' : DeepCauseWF (h.push (wrapperNode v)) := deep_push h _ hd hv
+  have hsz : (h.push (wrapperNode v)).size = h.size + 1 := by simp
+  have hv0 : v ≠ .nilIface := by intro e; rw [e] at hn; simp [isNil] at hn
+  have e1 : (Val.ref h.size == Val.nilIface) = false := by simp
+  have e2 : (t == Val.nilIface) = false := by simpa using ht0
+  have e3 : (v == Val.nilIface) = false := by simpa using hv0
+  have hu : unwrap (h.push (wrapperNode v)) (.ref h.size) = v := by simp [unwrap, wrapperNode]
+  simp only [errorsIs, e1, e2, e3, Bool.or_self, Bool.false_eq_true, if_false]
+  have hwf : walkFuel (h.push (wrapperNode v)) (.ref h.size) =
+      (costBelow (h.push (wrapperNode v)) h.size + valDepth v + 2) + 1 := by
+    simp only [walkFuel, hsz, costBelow, hu, valDepth]; omega
+  rw [hwf, isWalk_ref_step _ _ _ _ _ ht, hu]
+  have hpot : potential (h.push (wrapperNode v)) v ≤ valDepth v + costBelow (h.push (wrapperNode v)) h.size := by
+    have := costBelow_mono (h.push (wrapperNode v)) _ _ hv
+    simp only [potential]; omega
+  exact isWalk_fuel _ cmp t hd' _ _ v (by omega) (walkFuel_gt _ v (by omega))
+
+/-! the statements can fail: with too little fuel the walk stops short (so `is_walk_fuel_enough` says something), and the
+    deep invariant is not a tautology -/
+example : isWalk (wrap #[] (.plain 0 "p")).1 (fun _ => true) (.plain 0 "p") 1 (.ref 0) = .notFound := by decide
+example : errorsIs (wrap #[] (.plain 0 "p")).1 (fun _ => true) (.ref 0) (.plain 0 "p") = .found := by decide
+example : ¬ DeepCauseWF #[{ msg := "m", cause := .fwrap 0 "w" (.ref 0) }] := by
+  intro hd
+  have := hd 0 _ rfl
+  simp [top] at this
+
+
+/-- **what `errors.Is` says about an earlier value never changes**: after ANY history (`Evolves`: any calls, any aliasing,
+    clones included) `errors.Is(v, t)` for a value `v` that existed before answers what it answered before (found, not found
+    or the nil-receiver panic) -/
+theorem errors_is_stable (h h' : Heap) (e : Evolves h h') (cmp : Val → Bool) (v t : Val) (hd : DeepCauseWF h)
+    (hv : top v ≤ h.size) : errorsIs h' cmp v t = errorsIs h cmp v t :=
+  errorsIs_congr h h' cmp v t (history_only_links h h' e).1 (history_only_links h h' e).2.2 hd hv
+
+/-- **`errors.Is` still reaches the cause — and everything the cause reaches — through every constructor that keeps a
+    cause**: for a non-nil `v` that exists, `errors.Is(Wrap(v), t)`, `errors.Is(WrapTyped(v), t)`, `errors.Is(NewWithCause(m, v), t)`
+    and `errors.Is(e, t)` for the error `e` that `Recovery` hands to its handler after `panic(v)` all answer exactly what
+    `errors.Is(v, t)` answered BEFORE the call, for every non-nil target other than the new error itself (no fuel anywhere) -/
+theorem is_through_constructors (h : Heap) (cmp : Val → Bool) (v t : Val) (m recoveryMsg : String) (hd : DeepCauseWF h)
+    (hv : top v ≤ h.size) (hn : isNil v = false) (ht0 : t ≠ .nilIface) (ht : t ≠ .ref h.size) :
+    (asError v = false → errorsIs (wrap h v).1 cmp (wrap h v).2 t = errorsIs h cmp v t) ∧
+    ((∀ id, v ≠ .ref id) → errorsIs (wrapTyped h v).1 cmp (wrapTyped h v).2 t = errorsIs h cmp v t) ∧
+    errorsIs (newWithCause h m v).1 cmp (newWithCause h m v).2 t = errorsIs h cmp v t ∧
+    errorsIs (recovery h recoveryMsg (.err v) true).1 cmp (.ref h.size) t = errorsIs h cmp v t := by
+  have hv0 : v ≠ .nilIface := by intro e; rw [e] at hn; simp [isNil] at hn
+  have key : ∀ n : ENode, n.cause = v → errorsIs (h.push n) cmp (.ref h.size) t = errorsIs h cmp v t := by
+    intro n hc
+    have := errorsIs_push_transparent h cmp n t hd (by rw [hc]; exact hv) (by rw [hc]; exact hv0) ht0 ht
+    rw [hc] at this; exact this
+  have hnw : ∀ s : String, newWithCause h s v = (h.push { msg := s, hasStack := true, cause := v }, .ref h.size) := by
+    intro s; simp [newWithCause, hn]
+  refine ⟨?_, ?_, ?_, ?_⟩
+  · intro ha
+    have hw : wrap h v = (h.push (wrapperNode v), .ref h.size) := by simp [wrap, hn, ha]
+    rw [hw]; exact key _ rfl
+  · intro hr
+    rw [(wrapTyped_reaches_cause h v hn hr).1]; exact key _ rfl
+  · rw [hnw m]; exact key _ rfl
+  · have hr : (recovery h recoveryMsg (.err v) true).1 = (newWithCause h recoveryMsg v).1 := rfl
+    rw [hr, hnw recoveryMsg]; exact key _ rfl
+
+/-! non-vacuity: the target is reached through two constructors in a row, evaluated by the model -/
+example : errorsIs (newWithCause (wrap #[] (.plain 0 "p")).1 "m" (.ref 0)).1 (fun _ => true) (.ref 1) (.plain 0 "p") = .found := by
+  decide
 
 end C11
